@@ -371,6 +371,13 @@ def _thin(ctx, repo, cg):
                     if key in REVIEWED_EQUIVALENT:
                         ctx.ob("C05-R4", adv, f"{tag} `{op}`: {prims[0]} vs {emitted} reviewed equivalent: {REVIEWED_EQUIVALENT[key]}", True, node=sc[op][2], construct=f"{tag} {op} shortcut (reviewed)")
                         continue
+                shape_guards = [g for g in sc[op][1] if any(w in g for w in ("ndim", "shape", "len(")) and not g.startswith("not ")]
+                if same and shape_guards:
+                    ctx.ob("C05-R4", adv, f"{tag} `{op}`: the interpreter takes {emitted} only under {shape_guards}; the compiled form applies it to every operand", False, node=sc[op][2],
+                           construct=f"{tag} {op}: emitted {emitted} without the interpreter's guard {' and '.join(shape_guards)}",
+                           msg=f"compiled `{op}{'/' if tag == 'reduce' else chr(92)}` calls {emitted} unconditionally, the interpreter only when {' and '.join(shape_guards)} and folds otherwise: "
+                               "for operands outside the guard (rank >= 2) the two give different results")
+                    continue
                 ctx.ob("C05-R4", adv, f"{tag} `{op}`: the compiled callable {emitted} is the callable of the interpreter's shortcut {prims}", same, node=sc[op][2],
                        construct=f"{tag} {op}: emitted {emitted} is not the interpreter's {'.'.join(prims[0]) if prims else '?'}",
                        msg=f"compiled `{op}{'/' if tag == 'reduce' else chr(92)}` calls {emitted} while the interpreter's shortcut uses {prims}: they differ for operands of rank >= 2 (cumsum/cumprod flatten, accumulate works along axis 0)")
@@ -419,6 +426,25 @@ def check_rewrap(ctx, repo, rid):
     ctx.ob(rid, f.fq, "every KGFn (operator nodes included) is re-wrapped: the test is exactly isinstance(x, KGFn)", plain, node=rets[0], construct="call re-wraps every function node",
            msg=f"call() re-wraps only when `{src(t)}`: the excluded nodes are evaluated in place, so their per-node compile memo persists across calls with other argument types (f::{{x*y}};f(2;3);f(\"ab\";2) -> \"abab\")")
     ctx.ob(rid, f.fq, "the wrapper is KGCall(x.a, x.args, x.arity)", bool(fresh_wrap), node=rets[0], construct="call wrapper shape")
+    # the memo must live ON the throw-away wrapper: eval may store / look up `_compiled` only on its own node parameter, never on a
+    # part of it (x.a, x.args are shared by every wrapper call() makes of the same function body)
+    ev = repo.fn("interpreter:KlongInterpreter.eval")
+    xp = [p for p in ev.params() if p != "self"][0]
+    n_memo = 0
+    for n in walk_local(ev.node):
+        base = None
+        if isinstance(n, ast.Attribute) and n.attr == "_compiled":
+            base = n.value
+        elif isinstance(n, ast.Call) and callee_name(n) in ("getattr", "setattr", "hasattr") and len(n.args) >= 2 and isinstance(n.args[1], ast.Constant) and n.args[1].value == "_compiled":
+            base = n.args[0]
+        if base is None:
+            continue
+        n_memo += 1
+        ctx.ob(rid, ev.fq, f"the per-node compile memo is kept on the node eval was given (`{xp}`), which call() made for this evaluation only", isinstance(base, ast.Name) and base.id == xp, node=n,
+               construct=f"compile memo kept on {src(base)}",
+               msg=f"the compile memo is read/written on `{src(base)}`, an object shared by all evaluations of the same function body: the admission decision (operand types) of the first call is reused for every later call "
+                   "(f::{x*2}; f(3); f(\"ab\") -> \"abab\")")
+    ctx.floor(rid, "per-node compile memo accesses in eval", n_memo, 2)
 
 
 
@@ -565,6 +591,9 @@ MUTATION_SCOPE = ['compiler:_ast_to_ir',
 SEEDS = [
     Seed("scalar-variable-folded-into-ir", "fault", "compiler", "        if tv is int or tv is float:\n            if node not in var_refs:\n                var_refs[node] = f'_v{len(var_refs)}'\n            return ('var', var_refs[node])",
          "        if tv is int or tv is float:\n            return ('literal', val)", rule="C05-R9"),
+    Seed("reduce-max-spelled-like-the-guarded-shortcut", "fault", "backends/numpy_backend", "'|': 'np.maximum.reduce', '&': 'np.minimum.reduce'}", "'|': 'np.max', '&': 'np.min'}", rule="C05-R4"),
+    Seed("node-memo-on-shared-operator", "fault", "interpreter", "                    compiled = getattr(x, '_compiled', None)", "                    compiled = getattr(x.a, '_compiled', None)", rule="C05-R7",
+         more=[("interpreter", "                        x._compiled = compiled", "                        x.a._compiled = compiled")]),
     Seed("collect-params-sorted", "fault", "backends/base", "        _walk(ir)\n        return params", "        _walk(ir)\n        return sorted(params)", rule="C05-R3"),
     Seed("refactor-var-syms-list", "refactor", "compiler", "    var_syms = list(var_refs.keys())", "    var_syms = [*var_refs]"),
     Seed("setitem-keeps-compiled", "fault", "interpreter", "        # results since Python operators have different semantics per type.\n        self._compiled_cache.clear()", "        # results since Python operators have different semantics per type.\n        pass", rule="C05-R1"),
